@@ -260,6 +260,16 @@ static enum eventloop_return accept_common(struct io_event *ev, void (*peer_func
 		if (peer_fd == -1) {
 			if ((errno == EAGAIN) || (errno == EWOULDBLOCK)) {
 				return EL_CONTINUE_LOOP;
+			} else if ((errno == EINTR) || (errno == ECONNABORTED) || (errno == EPROTO) ||
+			           (errno == ENETDOWN) || (errno == ENOPROTOOPT) || (errno == EHOSTDOWN) ||
+			           (errno == ENONET) || (errno == EHOSTUNREACH) || (errno == EOPNOTSUPP) ||
+			           (errno == ENETUNREACH) || (errno == ETIMEDOUT) || (errno == ECONNRESET)) {
+				/* this connection attempt failed, others might be waiting */
+				continue;
+			} else if ((errno == EMFILE) || (errno == ENFILE) || (errno == ENOBUFS) || (errno == ENOMEM)) {
+				/* out of resources: keep serving the established connections */
+				log_err("Could not accept connection: %s\n", strerror(errno));
+				return EL_CONTINUE_LOOP;
 			} else {
 				return EL_ABORT_LOOP;
 			}
